@@ -67,7 +67,7 @@ ssize_t __wrap_read(int fd, void *buf, size_t n) {
         if(iof_cur_fault == 5) { iof_eof_fd = fd; iof_eof_pos = __real_lseek(fd, 0, SEEK_CUR); return 0; }
         if(iof_cur_fault <= 2) { errno = iof_errno(); return -1; }
         size_t m = iof_cur_fault == 3 ? n / 2 : iof_cur_fault == 4 ? (n ? 1 : 0) : 0;
-        if(m == 0) return 0;
+        if(m == 0) return __real_read(fd, buf, n);      /* a 1-byte read cannot be short; only fault 5 (end of file) returns 0 */
         return __real_read(fd, buf, m);
     }
     return __real_read(fd, buf, n);
